@@ -80,23 +80,26 @@ func Build[G any](options ...Option) (parser *Parser[G], err error) {
 
 	symbols := p.lex.Symbols()
 	if len(p.mappers) > 0 {
+		var untyped []Mapper // Mappers without symbols apply to every token.
 		mappers := map[lexer.TokenType][]Mapper{}
 		for _, mapper := range p.mappers {
 			if len(mapper.symbols) == 0 {
-				mappers[lexer.EOF] = append(mappers[lexer.EOF], mapper.mapper)
+				untyped = append(untyped, mapper.mapper)
 			} else {
+				seen := map[lexer.TokenType]bool{}
 				for _, symbol := range mapper.symbols {
 					if rn, ok := symbols[symbol]; !ok {
 						return nil, fmt.Errorf("mapper %#v uses unknown token %q", mapper, symbol)
-					} else { // nolint: golint
+					} else if !seen[rn] { // A symbol given twice still maps each token once.
+						seen[rn] = true
 						mappers[rn] = append(mappers[rn], mapper.mapper)
 					}
 				}
 			}
 		}
 		p.lex = &mappingLexerDef{p.lex, func(t lexer.Token) (lexer.Token, error) {
-			combined := make([]Mapper, 0, len(mappers[t.Type])+len(mappers[lexer.EOF]))
-			combined = append(combined, mappers[lexer.EOF]...)
+			combined := make([]Mapper, 0, len(mappers[t.Type])+len(untyped))
+			combined = append(combined, untyped...)
 			combined = append(combined, mappers[t.Type]...)
 
 			var err error
